@@ -16,7 +16,7 @@ RULE = ("constructor: every dict over a non-empty subset of {0,1}^w with integer
         "distances: all ordered pairs of a pool of distributions (equal supports in different insertion orders included) x kernel widths: MMD symmetric, >= 0, "
         "0 on (p,p) and on equal copies; clipped NLL >= entropy - log(1+K eps); JS symmetric; save/load. non-trivial = at least two outcomes with different weights")
 ASSUMPTIONS = ["float sums compared at 1e-12", "distances are only compared between distributions on the same number of subsystems"]
-BOUNDS = {"quick": {"w_ctor": 2, "w_marginal": 4, "pool": "28 + reordered/zero-key variants"}, "thorough": {"w_ctor": 3, "w_marginal": 4, "pool": 90}}
+BOUNDS = {"quick": {"w_ctor": 3, "w_marginal": 5, "pool": "80 + reordered/zero-key variants", "sigmas": 4}, "thorough": {"w_ctor": 3, "w_marginal": 6, "pool": "255 (weights 0..3 on 2 bits) + variants", "sigmas": 6}}
 TOL = 1e-12
 
 
@@ -192,7 +192,8 @@ def weight_dicts(w, maxw):
 
 
 def run(run):
-    thorough = run.tier == "thorough"
+    deep = run.tier == "thorough"      # the former thorough bounds are the quick tier now
+    thorough = True
     cc = []
     for w in ((1, 2, 3) if thorough else (1, 2)):
         for items in weight_dicts(w, 3 if w <= 2 else (2 if thorough else 1)):
@@ -215,7 +216,7 @@ def run(run):
     cc.append({"items": [[[-1, 1], 1]], "style": "tuple", "valid": False, "why": "negative key entry"})
     secs = [Section("constructor", cc, ctor_case, desc="normalisation, proportions, caller's dict untouched, rejections")]
     mc_ = []
-    W = 5 if thorough else 4
+    W = 6 if deep else 5
     for w in range(1, W + 1):
         B = [list(b) for b in itertools.product((0, 1), repeat=w)]
         # distinct weights (so every mis-projection shows), a sparse support, and a uniform one
@@ -229,16 +230,16 @@ def run(run):
     mc_ += [{"items": [[[1, 10, 1], 1], [[11, 0, 1], 2], [[1, 1, 1], 4]], "w": 3, "style": "tuple"}]
     secs.append(Section("marginals", mc_, marginal_case, horizon=300, desc="subdistribution on every ordered list of distinct qubits vs exact marginals; source untouched"))
     pool = []
-    for items in weight_dicts(2, 2):
+    for items in weight_dicts(2, 3 if deep else 2):
         nz = [it for it in items if it[1] > 0]
         pool.append(nz)
     pool = pool[:: (1 if thorough else 2)]
-    base = pool[: (200 if thorough else 28)]
+    base = pool[: (300 if deep else 200)]
     rev = [p[::-1] for p in base if len(p) >= 2][:: (2 if thorough else 3)]          # equal distributions, other insertion order
     rot = [p[1:] + p[:1] for p in base if len(p) >= 3][::3]
     zero = [[[b, x] for b, x in p] + [[[1, 1], 0]] for p in base[:6] if all(b != [1, 1] for b, _ in p)]   # explicit zero-weight key
     pool = base + rev + rot + zero
-    sig = [0.5, 1, 2, [1, 2]] if thorough else [1, [0.5, 2]]
+    sig = [0.5, 1, 2, [1, 2], 0.1, [0.25, 1, 4]] if deep else [0.5, 1, 2, [1, 2]]
     dc = [{"p": a, "q": b, "sigma": s} for a in pool for b in pool for s in sig]
     dc += [{"p": a, "q": b, "sigma": 1, "eps": e} for a in pool for b in pool for e in ((0.05, 1e-3, 0.3) if thorough else (0.05,))]   # a clipping constant that actually clips
     # outcomes of non-binary subsystems with multi-digit entries
